@@ -125,6 +125,7 @@ func runWorker(p *Prop, tier string, seed uint64, offset, stride, max int, budge
 			break
 		}
 		fmt.Fprintf(os.Stderr, "RUN %d\n", idx) // a crashed worker is diagnosed from its last RUN line
+		genTier = tier
 		sc := p.Gen(seed, tier, idx)
 		rep := p.Run(sc, false)
 		res.Runs++
@@ -283,6 +284,7 @@ func genMain(args []string) {
 	if p == nil {
 		die2("unknown property")
 	}
+	genTier = *tier
 	sc := p.Gen(*seed, *tier, *idx)
 	b, _ := json.MarshalIndent(sc, "", " ")
 	fmt.Println(string(b))
@@ -302,6 +304,7 @@ func detlogMain(args []string) {
 		die2("unknown property")
 	}
 	fmt.Printf("# GOMAXPROCS=%d\n", runtime.GOMAXPROCS(0))
+	genTier = *tier
 	for i := *from; i < *from+*n; i++ {
 		sc := p.Gen(*seed, *tier, i)
 		rep := p.Run(sc, false)
